@@ -4,306 +4,305 @@ import DroopProofs.OracleBridge
 /-! # C10, scotland / cfer / cfer-batch: reordering the ballot lines commutes with the count -/
 namespace Droop
 variable {α : Type} [CommRing α] [LinearOrder α] [IsStrictOrderedRing α] (A : Arith α)
-variable {π : ∀ {β : Type}, List β → List β}
+variable {fb : List (Ballot α) → List (Ballot α)} {fw : List (Nat × α) → List (Nat × α)}
 
 section
-variable (hA : LawfulArith A) (hπ : NatPerm π)
-include hA hπ
+variable (hA : LawfulArith A) (hx : XF A fb fw)
+include hA hx
 
 /-! ## scotland -/
 
 omit hA in
-theorem permB_scotBreakTie (s : St α) (tied : List (Cand α)) (lowest : Bool) (reason : String) :
-    scotBreakTie A (permB π s) tied lowest reason
-      = (permB π (scotBreakTie A s tied lowest reason).1, (scotBreakTie A s tied lowest reason).2) := by
+theorem xB_scotBreakTie (s : St α) (tied : List (Cand α)) (lowest : Bool) (reason : String) :
+    scotBreakTie A (xB fb fw s) tied lowest reason
+      = (xB fb fw (scotBreakTie A s tied lowest reason).1, (scotBreakTie A s tied lowest reason).2) := by
   unfold scotBreakTie
   match tied with
-  | [] => simp only; rw [permB_setCrash]
+  | [] => simp only; rw [xB_setCrash]
   | [c] => rfl
   | c :: d :: r =>
     simp only
-    have hr : (permB π s).rounds = s.rounds := rfl
-    rw [hr, round_permB]
+    have hr : (xB fb fw s).rounds = s.rounds := rfl
+    rw [hr, round_xB]
     cases ((s.rounds.take s.round).reverse).findSome? (scotPrior A (List.map (fun x => x.cid) (c :: d :: r)) lowest) with
-    | some cn0 => simp only; rw [permB_logAct A hπ]
-    | none => simp only; rw [permB_logAct A hπ]
+    | some cn0 => simp only; rw [xB_logAct A hx]
+    | none => simp only; rw [xB_logAct A hx]
 
 omit hA in
-theorem permB_scotElect (s : St α) : permB π (scotElect A s) = scotElect A (permB π s) := by
+theorem xB_scotElect (s : St α) : xB fb fw (scotElect A s) = scotElect A (xB fb fw s) := by
   unfold scotElect electWinners
-  have hq : hasQuotaGE A (permB π s) = hasQuotaGE A s := by funext c; rfl
+  have hq : hasQuotaGE A (xB fb fw s) = hasQuotaGE A s := by funext c; rfl
   rw [hq]
-  exact permB_foldElect A hπ _ (fun _ => "Elect, transfer pending") (fun _ => true) s
+  exact xB_foldElect A hx _ (fun _ => "Elect, transfer pending") (fun _ => true) s
 
-theorem permB_scotSurplusStep (s : St α) : permB π (scotSurplusStep A s) = scotSurplusStep A (permB π s) := by
+theorem xB_scotSurplusStep (s : St α) : xB fb fw (scotSurplusStep A s) = scotSurplusStep A (xB fb fw s) := by
   unfold scotSurplusStep
-  dsimp only [pendingL_permB]
+  dsimp only [pendingL_xB]
   cases hm : maxVoteOf A s.pendingL with
   | none => rfl
   | some hv =>
     simp only
-    rw [permB_scotBreakTie A hπ]
+    rw [xB_scotBreakTie A hx]
     cases hb : scotBreakTie A s (s.pendingL.filter (fun c => A.eq c.vote hv)) false "largest surplus" with
     | mk s1 oc =>
       cases oc with
       | none => rfl
-      | some hc => simp only; rw [permB_transferSurplus A hA hπ, permB_unpendLog A hπ]
+      | some hc => simp only; rw [xB_transferSurplus A hA hx, xB_unpendLog A hx]
 
-theorem permB_scotDefeatStep (s : St α) : permB π (scotDefeatStep A s) = scotDefeatStep A (permB π s) := by
+theorem xB_scotDefeatStep (s : St α) : xB fb fw (scotDefeatStep A s) = scotDefeatStep A (xB fb fw s) := by
   unfold scotDefeatStep
-  dsimp only [hopeful_permB]
+  dsimp only [hopeful_xB]
   cases hm : minVoteOf A s.hopeful with
   | none => rfl
   | some lv =>
     simp only
-    rw [permB_scotBreakTie A hπ]
+    rw [xB_scotBreakTie A hx]
     cases hb : scotBreakTie A s (s.hopeful.filter (fun c => A.eq c.vote lv)) true "defeat low candidate" with
     | mk s1 oc =>
       cases oc with
       | none => rfl
-      | some lc => simp only; rw [permB_transferDefeated A hA hπ, permB_defeat A hπ]
+      | some lc => simp only; rw [xB_transferDefeated A hA hx, xB_defeat A hx]
 
-omit hA hπ in
-theorem scotCountComplete_permB (s : St α) : scotCountComplete (permB π s) = scotCountComplete s := rfl
+omit hA hx in
+theorem scotCountComplete_xB (s : St α) : scotCountComplete (xB fb fw s) = scotCountComplete s := rfl
 
 omit hA in
-theorem permB_scotRound (s : St α) : permB π (scotRound A s) = scotRound A (permB π s) := by
+theorem xB_scotRound (s : St α) : xB fb fw (scotRound A s) = scotRound A (xB fb fw s) := by
   unfold scotRound
-  rw [← permB_newRound A hπ]
+  rw [← xB_newRound A hx]
   rfl
 
-theorem permB_scotBody (s : St α) : scotBody A (permB π s) = (permB π (scotBody A s).1, (scotBody A s).2) := by
+theorem xB_scotBody (s : St α) : scotBody A (xB fb fw s) = (xB fb fw (scotBody A s).1, (scotBody A s).2) := by
   unfold scotBody
-  rw [← permB_scotElect A hπ]
+  rw [← xB_scotElect A hx]
   by_cases hc : scotCountComplete (scotElect A s) = true
-  · rw [if_pos (show scotCountComplete (permB π (scotElect A s)) = true from hc), if_pos hc]
-  · rw [if_neg (show ¬ scotCountComplete (permB π (scotElect A s)) = true from hc), if_neg hc, ← permB_scotRound A hπ]
+  · rw [if_pos (show scotCountComplete (xB fb fw (scotElect A s)) = true from hc), if_pos hc]
+  · rw [if_neg (show ¬ scotCountComplete (xB fb fw (scotElect A s)) = true from hc), if_neg hc, ← xB_scotRound A hx]
     generalize scotRound A (scotElect A s) = s2
     unfold scotStage
     by_cases h2 : (!s2.pendingL.isEmpty) = true
-    · rw [if_pos (show (!(permB π s2).pendingL.isEmpty) = true from h2), if_pos h2]
-      simp only; rw [permB_scotSurplusStep A hA hπ]
-    · rw [if_neg (show ¬ (!(permB π s2).pendingL.isEmpty) = true from h2), if_neg h2]
+    · rw [if_pos (show (!(xB fb fw s2).pendingL.isEmpty) = true from h2), if_pos h2]
+      simp only; rw [xB_scotSurplusStep A hA hx]
+    · rw [if_neg (show ¬ (!(xB fb fw s2).pendingL.isEmpty) = true from h2), if_neg h2]
       by_cases h3 : (!s2.hopeful.isEmpty) = true
-      · rw [if_pos (show (!(permB π s2).hopeful.isEmpty) = true from h3), if_pos h3, ← permB_scotDefeatStep A hA hπ]
+      · rw [if_pos (show (!(xB fb fw s2).hopeful.isEmpty) = true from h3), if_pos h3, ← xB_scotDefeatStep A hA hx]
         unfold scotFinish
         by_cases h4 : scotCountComplete (scotDefeatStep A s2) = true
-        · rw [if_pos (show scotCountComplete (permB π (scotDefeatStep A s2)) = true from h4), if_pos h4]
-        · rw [if_neg (show ¬ scotCountComplete (permB π (scotDefeatStep A s2)) = true from h4), if_neg h4]
-      · rw [if_neg (show ¬ (!(permB π s2).hopeful.isEmpty) = true from h3), if_neg h3]
+        · rw [if_pos (show scotCountComplete (xB fb fw (scotDefeatStep A s2)) = true from h4), if_pos h4]
+        · rw [if_neg (show ¬ scotCountComplete (xB fb fw (scotDefeatStep A s2)) = true from h4), if_neg h4]
+      · rw [if_neg (show ¬ (!(xB fb fw s2).hopeful.isEmpty) = true from h3), if_neg h3]
         unfold scotFinish
         by_cases h4 : scotCountComplete s2 = true
-        · rw [if_pos (show scotCountComplete (permB π s2) = true from h4), if_pos h4]
-        · rw [if_neg (show ¬ scotCountComplete (permB π s2) = true from h4), if_neg h4]
+        · rw [if_pos (show scotCountComplete (xB fb fw s2) = true from h4), if_pos h4]
+        · rw [if_neg (show ¬ scotCountComplete (xB fb fw s2) = true from h4), if_neg h4]
 
 omit hA in
-theorem permB_scotEpilogue (s : St α) : permB π (scotEpilogue A s) = scotEpilogue A (permB π s) := by
+theorem xB_scotEpilogue (s : St α) : xB fb fw (scotEpilogue A s) = scotEpilogue A (xB fb fw s) := by
   unfold scotEpilogue
-  dsimp only [pendingL_permB]
-  rw [← permB_foldUnpend]
+  dsimp only [pendingL_xB]
+  rw [← xB_foldUnpend]
   generalize s.pendingL.foldl (fun acc c => acc.unpendSilent c.cid) s = s5
   by_cases hf : decide ((s5.hopeful.length : Int) ≤ s5.seatsLeft) = true
-  · rw [if_pos (show decide (((permB π s5).hopeful.length : Int) ≤ (permB π s5).seatsLeft) = true from hf), if_pos hf]
-    have h6 : permB π (s5.hopeful.foldl (fun acc c => acc.elect A c.cid "Elect remaining candidates" false) s5)
-        = (permB π s5).hopeful.foldl (fun acc c => acc.elect A c.cid "Elect remaining candidates" false) (permB π s5) :=
-      permB_foldElect A hπ _ (fun _ => "Elect remaining candidates") (fun _ => false) s5
+  · rw [if_pos (show decide (((xB fb fw s5).hopeful.length : Int) ≤ (xB fb fw s5).seatsLeft) = true from hf), if_pos hf]
+    have h6 : xB fb fw (s5.hopeful.foldl (fun acc c => acc.elect A c.cid "Elect remaining candidates" false) s5)
+        = (xB fb fw s5).hopeful.foldl (fun acc c => acc.elect A c.cid "Elect remaining candidates" false) (xB fb fw s5) :=
+      xB_foldElect A hx _ (fun _ => "Elect remaining candidates") (fun _ => false) s5
     rw [← h6]
-    exact permB_foldDefeat A hπ _ (fun _ => "Defeat remaining candidates") _
-  · rw [if_neg (show ¬ decide (((permB π s5).hopeful.length : Int) ≤ (permB π s5).seatsLeft) = true from hf), if_neg hf]
-    exact permB_foldDefeat A hπ _ (fun _ => "Defeat remaining candidates") _
+    exact xB_foldDefeat A hx _ (fun _ => "Defeat remaining candidates") _
+  · rw [if_neg (show ¬ decide (((xB fb fw s5).hopeful.length : Int) ≤ (xB fb fw s5).seatsLeft) = true from hf), if_neg hf]
+    exact xB_foldDefeat A hx _ (fun _ => "Defeat remaining candidates") _
 
-theorem permB_scotInit (s0 : St α) : permB π (scotInit A s0) = scotInit A (permB π s0) := by
+theorem xB_scotInit (s0 : St α) : xB fb fw (scotInit A s0) = scotInit A (xB fb fw s0) := by
   unfold scotInit
-  rw [permB_logAct A hπ]
-  have : permB π ((firstCount A (s0.setQuota (A.ofInt (pdiv s0.nballots (s0.seats + 1) + 1)))).setExhausted A.zero)
-      = (permB π (firstCount A (s0.setQuota (A.ofInt (pdiv s0.nballots (s0.seats + 1) + 1))))).setExhausted A.zero := rfl
-  rw [this, permB_firstCount A hA hπ]
+  rw [xB_logAct A hx]
+  have : xB fb fw ((firstCount A (s0.setQuota (A.ofInt (pdiv s0.nballots (s0.seats + 1) + 1)))).setExhausted A.zero)
+      = (xB fb fw (firstCount A (s0.setQuota (A.ofInt (pdiv s0.nballots (s0.seats + 1) + 1))))).setExhausted A.zero := rfl
+  rw [this, xB_firstCount A hA hx]
   rfl
 
 /-- **C10, Scottish rule** -/
-theorem scot_permB (s0 : St α) : scotCount A (permB π s0) = (scotCount A s0).map (permB π) := by
+theorem scot_xB (s0 : St α) : scotCount A (xB fb fw s0) = (scotCount A s0).map (xB fb fw) := by
   unfold scotCount
-  have hlen : (permB π s0).cands.length = s0.cands.length := rfl
-  rw [hlen, ← permB_scotInit A hA hπ, loopN_permB (fun _ => true) (scotBody A) (fun _ => rfl) (permB_scotBody A hA hπ)]
+  have hlen : (xB fb fw s0).cands.length = s0.cands.length := rfl
+  rw [hlen, ← xB_scotInit A hA hx, loopN_xB (fun _ => true) (scotBody A) (fun _ => rfl) (xB_scotBody A hA hx)]
   cases loopN (fun _ => true) (scotBody A) (2 * s0.cands.length + 3) (scotInit A s0) with
   | none => rfl
-  | some s4 => simp only [Option.map_some]; rw [permB_scotEpilogue A hπ]
+  | some s4 => simp only [Option.map_some]; rw [xB_scotEpilogue A hx]
 
 /-! ## cfer, cfer-batch -/
 
-theorem permB_cferFinishDefeats (s : St α) (defeats : List (Cand α)) :
-    cferFinishDefeats A (permB π s) defeats = (permB π (cferFinishDefeats A s defeats).1, (cferFinishDefeats A s defeats).2) := by
+theorem xB_cferFinishDefeats (s : St α) (defeats : List (Cand α)) :
+    cferFinishDefeats A (xB fb fw s) defeats = (xB fb fw (cferFinishDefeats A s defeats).1, (cferFinishDefeats A s defeats).2) := by
   unfold cferFinishDefeats
   by_cases h : s.hopeful.length + s.elected.length ≤ s.seats
-  · rw [if_pos (show (permB π s).hopeful.length + (permB π s).elected.length ≤ (permB π s).seats from h), if_pos h]
+  · rw [if_pos (show (xB fb fw s).hopeful.length + (xB fb fw s).elected.length ≤ (xB fb fw s).seats from h), if_pos h]
     simp only
-    have h1 : permB π (s.pendingL.foldl (fun acc c => acc.elect A c.cid "Elect pending" false) s)
-        = (permB π s).pendingL.foldl (fun acc c => acc.elect A c.cid "Elect pending" false) (permB π s) :=
-      permB_foldElect A hπ s.pendingL (fun _ => "Elect pending") (fun _ => false) s
+    have h1 : xB fb fw (s.pendingL.foldl (fun acc c => acc.elect A c.cid "Elect pending" false) s)
+        = (xB fb fw s).pendingL.foldl (fun acc c => acc.elect A c.cid "Elect pending" false) (xB fb fw s) :=
+      xB_foldElect A hx s.pendingL (fun _ => "Elect pending") (fun _ => false) s
     rw [← h1]
-    exact (permB_foldElect A hπ _ (fun _ => "Elect remaining") (fun _ => false) _).symm ▸ rfl
-  · rw [if_neg (show ¬ (permB π s).hopeful.length + (permB π s).elected.length ≤ (permB π s).seats from h), if_neg h]
-    simp only; rw [permB_transferDefeated A hA hπ]
+    exact (xB_foldElect A hx _ (fun _ => "Elect remaining") (fun _ => false) _).symm ▸ rfl
+  · rw [if_neg (show ¬ (xB fb fw s).hopeful.length + (xB fb fw s).elected.length ≤ (xB fb fw s).seats from h), if_neg h]
+    simp only; rw [xB_transferDefeated A hA hx]
 
 omit hA in
-theorem permB_cferElect (s : St α) : permB π (cferElect A s) = cferElect A (permB π s) := by
+theorem xB_cferElect (s : St α) : xB fb fw (cferElect A s) = cferElect A (xB fb fw s) := by
   unfold cferElect electWinners
-  have hq : hasQuotaGE A (permB π s) = hasQuotaGE A s := by funext c; rfl
+  have hq : hasQuotaGE A (xB fb fw s) = hasQuotaGE A s := by funext c; rfl
   rw [hq]
-  exact permB_foldElect A hπ _ (fun c => if A.gt c.vote s.quota then "Elect, transfer pending" else "Elect")
+  exact xB_foldElect A hx _ (fun c => if A.gt c.vote s.quota then "Elect, transfer pending" else "Elect")
     (fun c => A.gt c.vote s.quota) s
 
 omit hA in
-theorem permB_cferSeatsFull (s : St α) :
-    cferSeatsFull A (permB π s) = (permB π (cferSeatsFull A s).1, (cferSeatsFull A s).2) := by
+theorem xB_cferSeatsFull (s : St α) :
+    cferSeatsFull A (xB fb fw s) = (xB fb fw (cferSeatsFull A s).1, (cferSeatsFull A s).2) := by
   unfold cferSeatsFull
-  dsimp only [pendingL_permB]
-  rw [← permB_foldUnpend]
-  have := permB_foldDefeat A hπ (s.pendingL.foldl (fun acc c => acc.unpendSilent c.cid) s).hopeful (fun _ => "Defeat remaining")
+  dsimp only [pendingL_xB]
+  rw [← xB_foldUnpend]
+  have := xB_foldDefeat A hx (s.pendingL.foldl (fun acc c => acc.unpendSilent c.cid) s).hopeful (fun _ => "Defeat remaining")
     (s.pendingL.foldl (fun acc c => acc.unpendSilent c.cid) s)
   rw [this]
   rfl
 
-omit hA hπ in
-theorem cferBatch_go_permB (s : St α) (surplus : α) (cands : List (Cand α)) (nEl : Nat) (top : Option (Cand α)) :
+omit hA hx in
+theorem cferBatch_go_xB (s : St α) (surplus : α) (cands : List (Cand α)) (nEl : Nat) (top : Option (Cand α)) :
     ∀ (fuel t : Nat) (best : List (Cand α)),
-      cferBatch.go A (permB π s) surplus cands nEl top t fuel best = cferBatch.go A s surplus cands nEl top t fuel best := by
+      cferBatch.go A (xB fb fw s) surplus cands nEl top t fuel best = cferBatch.go A s surplus cands nEl top t fuel best := by
   intro fuel
   induction fuel with
   | zero => intro t best; rfl
   | succ n ih =>
     intro t best
     unfold cferBatch.go
-    simp only [seats_permB, quota_permB, ih]
+    simp only [seats_xB, quota_xB, ih]
 
-omit hA hπ in
-theorem cferBatch_permB (s : St α) : cferBatch A (permB π s) = cferBatch A s := by
+omit hA hx in
+theorem cferBatch_xB (s : St α) : cferBatch A (xB fb fw s) = cferBatch A s := by
   unfold cferBatch
-  exact cferBatch_go_permB A s _ _ _ _ _ _ _
+  exact cferBatch_go_xB A s _ _ _ _ _ _ _
 
-theorem permB_cferSurplusOne (s : St α) (c : Cand α) : permB π (cferSurplusOne A s c) = cferSurplusOne A (permB π s) c := by
+theorem xB_cferSurplusOne (s : St α) (c : Cand α) : xB fb fw (cferSurplusOne A s c) = cferSurplusOne A (xB fb fw s) c := by
   unfold cferSurplusOne
-  have hc : (permB π s).cand? c.cid = s.cand? c.cid := rfl
+  have hc : (xB fb fw s).cand? c.cid = s.cand? c.cid := rfl
   rw [hc]
   cases s.cand? c.cid with
   | none => rfl
-  | some cur => simp only; rw [permB_transferSurplus A hA hπ, permB_unpendLog A hπ]
+  | some cur => simp only; rw [xB_transferSurplus A hA hx, xB_unpendLog A hx]
 
-theorem permB_cferSurplusAll (s : St α) : permB π (cferSurplusAll A s) = cferSurplusAll A (permB π s) := by
+theorem xB_cferSurplusAll (s : St α) : xB fb fw (cferSurplusAll A s) = cferSurplusAll A (xB fb fw s) := by
   unfold cferSurplusAll
-  dsimp only [pendingL_permB]
+  dsimp only [pendingL_xB]
   generalize s.pendingL = l
   induction l generalizing s with
   | nil => rfl
-  | cons c cs ih => simp only [List.foldl_cons]; rw [ih, permB_cferSurplusOne A hA hπ]
+  | cons c cs ih => simp only [List.foldl_cons]; rw [ih, xB_cferSurplusOne A hA hx]
 
-theorem permB_cferDefeatLow (s : St α) :
-    cferDefeatLow A (permB π s) = (permB π (cferDefeatLow A s).1, (cferDefeatLow A s).2) := by
+theorem xB_cferDefeatLow (s : St α) :
+    cferDefeatLow A (xB fb fw s) = (xB fb fw (cferDefeatLow A s).1, (cferDefeatLow A s).2) := by
   unfold cferDefeatLow
-  dsimp only [hopeful_permB]
+  dsimp only [hopeful_xB]
   cases hm : minVoteOf A s.hopeful with
-  | none => simp only; rw [permB_setCrash]
+  | none => simp only; rw [xB_setCrash]
   | some lv =>
     simp only
-    rw [permB_breakTie A hπ]
+    rw [xB_breakTie A hx]
     cases hb : breakTie A s (s.hopeful.filter (fun c => A.eq c.vote lv)) "Break tie (defeat)" with
     | mk s1 oc =>
       cases oc with
       | none => rfl
-      | some lc => simp only; rw [← permB_defeat A hπ]; exact permB_cferFinishDefeats A hA hπ _ [lc]
+      | some lc => simp only; rw [← xB_defeat A hx]; exact xB_cferFinishDefeats A hA hx _ [lc]
 
-theorem permB_cferAfterElect (batch : Bool) (s : St α) :
-    cferAfterElect A batch (permB π s) = (permB π (cferAfterElect A batch s).1, (cferAfterElect A batch s).2) := by
+theorem xB_cferAfterElect (batch : Bool) (s : St α) :
+    cferAfterElect A batch (xB fb fw s) = (xB fb fw (cferAfterElect A batch s).1, (cferAfterElect A batch s).2) := by
   unfold cferAfterElect
-  have hb : cferBatch A (permB π s) = cferBatch A s := cferBatch_permB A s
+  have hb : cferBatch A (xB fb fw s) = cferBatch A s := cferBatch_xB A s
   by_cases h1 : s.elected.length ≥ s.seats
-  · rw [if_pos (show (permB π s).elected.length ≥ (permB π s).seats from h1), if_pos h1]; exact permB_cferSeatsFull A hπ s
-  · rw [if_neg (show ¬ (permB π s).elected.length ≥ (permB π s).seats from h1), if_neg h1]
+  · rw [if_pos (show (xB fb fw s).elected.length ≥ (xB fb fw s).seats from h1), if_pos h1]; exact xB_cferSeatsFull A hx s
+  · rw [if_neg (show ¬ (xB fb fw s).elected.length ≥ (xB fb fw s).seats from h1), if_neg h1]
     by_cases h2 : (!(if batch then cferBatch A s else []).isEmpty) = true
     · rw [hb, if_pos h2, if_pos h2]
       unfold cferDefeatBatch
-      have hd := permB_foldDefeat A hπ (byBallotOrder (if batch then cferBatch A s else [])) (fun _ => "Defeat batch") s
+      have hd := xB_foldDefeat A hx (byBallotOrder (if batch then cferBatch A s else [])) (fun _ => "Defeat batch") s
       rw [← hd]
-      exact permB_cferFinishDefeats A hA hπ _ _
+      exact xB_cferFinishDefeats A hA hx _ _
     · rw [hb, if_neg h2, if_neg h2]
       by_cases h3 : (!s.pendingL.isEmpty) = true
-      · rw [if_pos (show (!(permB π s).pendingL.isEmpty) = true from h3), if_pos h3]
-        simp only; rw [permB_cferSurplusAll A hA hπ]
-      · rw [if_neg (show ¬ (!(permB π s).pendingL.isEmpty) = true from h3), if_neg h3]
-        exact permB_cferDefeatLow A hA hπ s
+      · rw [if_pos (show (!(xB fb fw s).pendingL.isEmpty) = true from h3), if_pos h3]
+        simp only; rw [xB_cferSurplusAll A hA hx]
+      · rw [if_neg (show ¬ (!(xB fb fw s).pendingL.isEmpty) = true from h3), if_neg h3]
+        exact xB_cferDefeatLow A hA hx s
 
-theorem permB_cferBody (batch : Bool) (s : St α) :
-    cferBody A batch (permB π s) = (permB π (cferBody A batch s).1, (cferBody A batch s).2) := by
+theorem xB_cferBody (batch : Bool) (s : St α) :
+    cferBody A batch (xB fb fw s) = (xB fb fw (cferBody A batch s).1, (cferBody A batch s).2) := by
   unfold cferBody
-  rw [← permB_newRound A hπ]
+  rw [← xB_newRound A hx]
   generalize s.newRound A = s1
   by_cases h : (s1.round == 1 && decide (s1.hopeful.length ≤ s1.seats)) = true
-  · rw [if_pos (show ((permB π s1).round == 1 && decide ((permB π s1).hopeful.length ≤ (permB π s1).seats)) = true from h), if_pos h]
+  · rw [if_pos (show ((xB fb fw s1).round == 1 && decide ((xB fb fw s1).hopeful.length ≤ (xB fb fw s1).seats)) = true from h), if_pos h]
     unfold cferElectAll
     simp only
-    rw [permB_foldElect A hπ s1.hopeful (fun _ => "Elect all") (fun _ => false) s1]
+    rw [xB_foldElect A hx s1.hopeful (fun _ => "Elect all") (fun _ => false) s1]
     rfl
-  · rw [if_neg (show ¬ ((permB π s1).round == 1 && decide ((permB π s1).hopeful.length ≤ (permB π s1).seats)) = true from h), if_neg h,
-      ← permB_cferElect A hπ]
-    exact permB_cferAfterElect A hA hπ batch _
+  · rw [if_neg (show ¬ ((xB fb fw s1).round == 1 && decide ((xB fb fw s1).hopeful.length ≤ (xB fb fw s1).seats)) = true from h), if_neg h,
+      ← xB_cferElect A hx]
+    exact xB_cferAfterElect A hA hx batch _
 
-theorem permB_gInit (q : α) (s0 : St α) : permB π (gInit A q s0) = gInit A q (permB π s0) := by
+theorem xB_gInit (q : α) (s0 : St α) : xB fb fw (gInit A q s0) = gInit A q (xB fb fw s0) := by
   unfold gInit
-  rw [permB_logAct A hπ]
-  have : permB π ((firstCount A (s0.setQuota q)).setExhausted A.zero) = (permB π (firstCount A (s0.setQuota q))).setExhausted A.zero := rfl
-  rw [this, permB_firstCount A hA hπ]
+  rw [xB_logAct A hx]
+  have : xB fb fw ((firstCount A (s0.setQuota q)).setExhausted A.zero) = (xB fb fw (firstCount A (s0.setQuota q))).setExhausted A.zero := rfl
+  rw [this, xB_firstCount A hA hx]
   rfl
 
 /-- **C10, cfer / cfer-batch** -/
-theorem cfer_permB (batch : Bool) (s0 : St α) : cferCount A batch (permB π s0) = (cferCount A batch s0).map (permB π) := by
+theorem cfer_xB (batch : Bool) (s0 : St α) : cferCount A batch (xB fb fw s0) = (cferCount A batch s0).map (xB fb fw) := by
   unfold cferCount
-  have hlen : (permB π s0).cands.length = s0.cands.length := rfl
-  have hi : cferInit A (permB π s0) = permB π (cferInit A s0) := by
-    rw [cferInit_eq, cferInit_eq, permB_gInit A hA hπ]; rfl
+  have hlen : (xB fb fw s0).cands.length = s0.cands.length := rfl
+  have hi : cferInit A (xB fb fw s0) = xB fb fw (cferInit A s0) := by
+    rw [cferInit_eq, cferInit_eq, xB_gInit A hA hx]; rfl
   rw [hlen, hi]
-  exact loopN_permB (fun _ => true) (cferBody A batch) (fun _ => rfl) (permB_cferBody A hA hπ batch) _ _
+  exact loopN_xB (fun _ => true) (cferBody A batch) (fun _ => rfl) (xB_cferBody A hA hx batch) _ _
 
 /-! ## mpls -/
 
-omit hA hπ in
-theorem mplsSurplusAll_permB (s : St α) (d : Bool) : mplsSurplusAll A (permB π s) d = mplsSurplusAll A s d := rfl
+omit hA hx in
+theorem mplsSurplusAll_xB (s : St α) (d : Bool) : mplsSurplusAll A (xB fb fw s) d = mplsSurplusAll A s d := rfl
 
-omit hA hπ in
-theorem mplsCertainLosers_go_permB (s : St α) (surplus : α) (sorted : List (Cand α)) (maxDefeat : Int) :
+omit hA hx in
+theorem mplsCertainLosers_go_xB (s : St α) (surplus : α) (sorted : List (Cand α)) (maxDefeat : Int) :
     ∀ (fuel cx : Nat) (vote : α) (losers : List (Cand α)),
       mplsCertainLosers.go A surplus sorted maxDefeat cx fuel vote losers
         = mplsCertainLosers.go A surplus sorted maxDefeat cx fuel vote losers := fun _ _ _ _ => rfl
 
-omit hA hπ in
-theorem mplsCertainLosers_permB (s : St α) (surplus : α) : mplsCertainLosers A (permB π s) surplus = mplsCertainLosers A s surplus := rfl
+omit hA hx in
+theorem mplsCertainLosers_xB (s : St α) (surplus : α) : mplsCertainLosers A (xB fb fw s) surplus = mplsCertainLosers A s surplus := rfl
 
 omit hA in
-theorem permB_mplsLogTransfer (s : St α) (verb : String) (subj : List Nat) :
-    permB π (mplsLogTransfer A s verb subj) = mplsLogTransfer A (permB π s) verb subj := by
+theorem xB_mplsLogTransfer (s : St α) (verb : String) (subj : List Nat) :
+    xB fb fw (mplsLogTransfer A s verb subj) = mplsLogTransfer A (xB fb fw s) verb subj := by
   unfold mplsLogTransfer
-  rw [permB_logAct A hπ]
+  rw [xB_logAct A hx]
   rfl
 
 omit hA in
-theorem permB_mplsCountVotes (s : St α) : permB π (mplsCountVotes A s) = mplsCountVotes A (permB π s) := by
+theorem xB_mplsCountVotes (s : St α) : xB fb fw (mplsCountVotes A s) = mplsCountVotes A (xB fb fw s) := by
   unfold mplsCountVotes
-  rw [permB_logAct A hπ]
+  rw [xB_logAct A hx]
   rfl
 
-theorem mplsDefeatSet_permB (s : St α) : mplsDefeatSet A (permB π s) = mplsDefeatSet A s := by
-  have hsum : A.sum (((π s.ballots).filter (fun b => match b.top with
+theorem mplsDefeatSet_xB (s : St α) : mplsDefeatSet A (xB fb fw s) = mplsDefeatSet A s := by
+  have hsum : A.sum (((fb s.ballots).filter (fun b => match b.top with
                                            | some c => s.isUndeclared c
                                            | none => false)).map (bvote A))
       = A.sum ((s.ballots.filter (fun b => match b.top with
                                            | some c => s.isUndeclared c
-                                           | none => false)).map (bvote A)) := by
-    rw [arith_sum_eq A hA, arith_sum_eq A hA]
-    exact (((hπ.perm s.ballots).filter _).map _).sum_eq
-  have e : mplsDefeatSet A (permB π s) =
+                                           | none => false)).map (bvote A)) :=
+    hx.usum _ (fun b m => rfl) s.ballots
+  have e : mplsDefeatSet A (xB fb fw s) =
       (if s.round == 2 then s.hopeful.filter (·.undeclared) else []) ++
       (mplsCertainLosers A s (A.add s.surplus
           (if s.round == 2 then
-            A.sum (((π s.ballots).filter (fun b => match b.top with
+            A.sum (((fb s.ballots).filter (fun b => match b.top with
                                                | some c => s.isUndeclared c
                                                | none => false)).map (bvote A))
            else A.zero))).filter
@@ -311,126 +310,139 @@ theorem mplsDefeatSet_permB (s : St α) : mplsDefeatSet A (permB π s) = mplsDef
   rw [e, hsum]
   rfl
 
-theorem permB_mplsDefeatMany (s : St α) (l : List (Cand α)) :
-    mplsDefeatMany A (permB π s) l = (permB π (mplsDefeatMany A s l).1, (mplsDefeatMany A s l).2) := by
+theorem xB_mplsDefeatMany (s : St α) (l : List (Cand α)) :
+    mplsDefeatMany A (xB fb fw s) l = (xB fb fw (mplsDefeatMany A s l).1, (mplsDefeatMany A s l).2) := by
   unfold mplsDefeatMany
   simp only
-  rw [permB_mplsLogTransfer A hπ, permB_foldSetZero, permB_transferAll A hA hπ]
-  have := permB_foldDefeat A hπ l mplsDefeatVerb s
+  rw [xB_mplsLogTransfer A hx, xB_foldSetZero, xB_transferAll A hA hx]
+  have := xB_foldDefeat A hx l mplsDefeatVerb s
   rw [this]
 
-theorem permB_mplsElectSurplus (s : St α) (hwq : List (Cand α)) (hv : α) :
-    mplsElectSurplus A (permB π s) hwq hv = (permB π (mplsElectSurplus A s hwq hv).1, (mplsElectSurplus A s hwq hv).2) := by
+theorem xB_mplsElectSurplus (s : St α) (hwq : List (Cand α)) (hv : α) :
+    mplsElectSurplus A (xB fb fw s) hwq hv = (xB fb fw (mplsElectSurplus A s hwq hv).1, (mplsElectSurplus A s hwq hv).2) := by
   unfold mplsElectSurplus
-  rw [permB_breakTie A hπ]
+  rw [xB_breakTie A hx]
   cases hb : breakTie A s (hwq.filter (fun c => A.eq c.vote hv)) "Break tie (largest surplus)" with
   | mk s3 oc =>
     cases oc with
     | none => rfl
     | some hc =>
       simp only
-      rw [permB_mplsLogTransfer A hπ, permB_setVote, permB_transferAll A hA hπ, permB_elect A hπ]
+      rw [xB_mplsLogTransfer A hx, xB_setVote, xB_transferAll A hA hx, xB_elect A hx]
       have hq : (transferAll A (s3.elect A hc.cid "Elect" false) [hc.cid]
             (fun w => rewMulDiv A w (A.sub hc.vote (s3.elect A hc.cid "Elect" false).quota) hc.vote)).quota
-          = (transferAll A ((permB π s3).elect A hc.cid "Elect" false) [hc.cid]
-            (fun w => rewMulDiv A w (A.sub hc.vote ((permB π s3).elect A hc.cid "Elect" false).quota) hc.vote)).quota := by
+          = (transferAll A ((xB fb fw s3).elect A hc.cid "Elect" false) [hc.cid]
+            (fun w => rewMulDiv A w (A.sub hc.vote ((xB fb fw s3).elect A hc.cid "Elect" false).quota) hc.vote)).quota := by
         rw [transferAll_quota, transferAll_quota]
         unfold St.elect; rw [logAct_quota, logAct_quota]; rfl
       rw [hq]
-      have hq2 : (s3.elect A hc.cid "Elect" false).quota = ((permB π s3).elect A hc.cid "Elect" false).quota := by
+      have hq2 : (s3.elect A hc.cid "Elect" false).quota = ((xB fb fw s3).elect A hc.cid "Elect" false).quota := by
         unfold St.elect; rw [logAct_quota, logAct_quota]; rfl
       rw [hq2]
 
-theorem permB_mplsDefeatLow (s : St α) : permB π (mplsDefeatLow A s) = mplsDefeatLow A (permB π s) := by
+theorem xB_mplsDefeatLow (s : St α) : xB fb fw (mplsDefeatLow A s) = mplsDefeatLow A (xB fb fw s) := by
   unfold mplsDefeatLow
   by_cases h : decide ((s.hopeful.length : Int) > s.seatsLeft) = true
-  · rw [if_pos h, if_pos (show decide (((permB π s).hopeful.length : Int) > (permB π s).seatsLeft) = true from h)]
-    dsimp only [hopeful_permB]
+  · rw [if_pos h, if_pos (show decide (((xB fb fw s).hopeful.length : Int) > (xB fb fw s).seatsLeft) = true from h)]
+    dsimp only [hopeful_xB]
     cases hm : minVoteOf A s.hopeful with
     | none => rfl
     | some lv =>
       simp only
-      rw [permB_breakTie A hπ]
+      rw [xB_breakTie A hx]
       cases hb : breakTie A s (s.hopeful.filter (fun c => A.eq c.vote lv)) "Break tie (defeat low candidate)" with
       | mk s3 oc =>
         cases oc with
         | none => rfl
         | some lc =>
           simp only
-          rw [← permB_defeat A hπ]
+          rw [← xB_defeat A hx]
           generalize s3.defeat A lc.cid "Defeat low candidate" = s4
           unfold mplsAfterDefeatLow
           by_cases h4 : decide ((s4.hopeful.length : Int) > s4.seatsLeft) = true
-          · rw [if_pos h4, if_pos (show decide (((permB π s4).hopeful.length : Int) > (permB π s4).seatsLeft) = true from h4),
-              permB_mplsLogTransfer A hπ, permB_setVote, permB_transferAll A hA hπ]
-          · rw [if_neg h4, if_neg (show ¬ decide (((permB π s4).hopeful.length : Int) > (permB π s4).seatsLeft) = true from h4)]
-  · rw [if_neg h, if_neg (show ¬ decide (((permB π s).hopeful.length : Int) > (permB π s).seatsLeft) = true from h)]
+          · rw [if_pos h4, if_pos (show decide (((xB fb fw s4).hopeful.length : Int) > (xB fb fw s4).seatsLeft) = true from h4),
+              xB_mplsLogTransfer A hx, xB_setVote, xB_transferAll A hA hx]
+          · rw [if_neg h4, if_neg (show ¬ decide (((xB fb fw s4).hopeful.length : Int) > (xB fb fw s4).seatsLeft) = true from h4)]
+  · rw [if_neg h, if_neg (show ¬ decide (((xB fb fw s).hopeful.length : Int) > (xB fb fw s).seatsLeft) = true from h)]
 
-theorem permB_mplsRound (s : St α) : mplsRound A (permB π s) = (permB π (mplsRound A s).1, (mplsRound A s).2) := by
+theorem xB_mplsRound (s : St α) : mplsRound A (xB fb fw s) = (xB fb fw (mplsRound A s).1, (mplsRound A s).2) := by
   unfold mplsRound
-  rw [mplsDefeatSet_permB A hA hπ]
+  rw [mplsDefeatSet_xB A hA hx]
   by_cases h1 : (!(mplsDefeatSet A s).isEmpty) = true
-  · rw [if_pos h1, if_pos h1]; exact permB_mplsDefeatMany A hA hπ s _
+  · rw [if_pos h1, if_pos h1]; exact xB_mplsDefeatMany A hA hx s _
   · rw [if_neg h1, if_neg h1]
-    have hq : hasQuotaGE A (permB π s) = hasQuotaGE A s := by funext c; rfl
-    dsimp only [hopeful_permB]
+    have hq : hasQuotaGE A (xB fb fw s) = hasQuotaGE A s := by funext c; rfl
+    dsimp only [hopeful_xB]
     rw [hq]
     cases (byVote A true s.hopeful).filter (hasQuotaGE A s) with
-    | cons h hs => simp only; exact permB_mplsElectSurplus A hA hπ s _ _
+    | cons h hs => simp only; exact xB_mplsElectSurplus A hA hx s _ _
     | nil =>
       simp only
-      rw [← permB_mplsDefeatLow A hA hπ]
+      rw [← xB_mplsDefeatLow A hA hx]
       unfold mplsFinish
       by_cases h2 : decide (((mplsDefeatLow A s).hopeful.length : Int) ≤ (mplsDefeatLow A s).seatsLeft) = true
-      · rw [if_pos h2, if_pos (show decide (((permB π (mplsDefeatLow A s)).hopeful.length : Int) ≤ (permB π (mplsDefeatLow A s)).seatsLeft) = true from h2)]
-      · rw [if_neg h2, if_neg (show ¬ decide (((permB π (mplsDefeatLow A s)).hopeful.length : Int) ≤ (permB π (mplsDefeatLow A s)).seatsLeft) = true from h2)]
+      · rw [if_pos h2, if_pos (show decide (((xB fb fw (mplsDefeatLow A s)).hopeful.length : Int) ≤ (xB fb fw (mplsDefeatLow A s)).seatsLeft) = true from h2)]
+      · rw [if_neg h2, if_neg (show ¬ decide (((xB fb fw (mplsDefeatLow A s)).hopeful.length : Int) ≤ (xB fb fw (mplsDefeatLow A s)).seatsLeft) = true from h2)]
 
-theorem permB_mplsBody (s : St α) : mplsBody A (permB π s) = (permB π (mplsBody A s).1, (mplsBody A s).2) := by
+theorem xB_mplsBody (s : St α) : mplsBody A (xB fb fw s) = (xB fb fw (mplsBody A s).1, (mplsBody A s).2) := by
   unfold mplsBody
-  rw [← permB_mplsCountVotes A hπ]
+  rw [← xB_mplsCountVotes A hx]
   generalize mplsCountVotes A s = sc
-  have hat : mplsAtThreshold A (permB π sc) = mplsAtThreshold A sc := rfl
+  have hat : mplsAtThreshold A (xB fb fw sc) = mplsAtThreshold A sc := rfl
   rw [hat]
   by_cases h : sc.elected.length + (mplsAtThreshold A sc).length ≥ sc.seats
-  · rw [if_pos h, if_pos (show (permB π sc).elected.length + (mplsAtThreshold A sc).length ≥ (permB π sc).seats from h)]
+  · rw [if_pos h, if_pos (show (xB fb fw sc).elected.length + (mplsAtThreshold A sc).length ≥ (xB fb fw sc).seats from h)]
     unfold mplsElectThreshold
     rw [hat]
     simp only
-    rw [permB_foldElect A hπ _ (fun _ => "Candidate at threshold") (fun _ => false) sc]
-  · rw [if_neg h, if_neg (show ¬ (permB π sc).elected.length + (mplsAtThreshold A sc).length ≥ (permB π sc).seats from h),
-      ← permB_newRound A hπ]
-    exact permB_mplsRound A hA hπ _
+    rw [xB_foldElect A hx _ (fun _ => "Candidate at threshold") (fun _ => false) sc]
+  · rw [if_neg h, if_neg (show ¬ (xB fb fw sc).elected.length + (mplsAtThreshold A sc).length ≥ (xB fb fw sc).seats from h),
+      ← xB_newRound A hx]
+    exact xB_mplsRound A hA hx _
 
 omit hA in
-theorem permB_mplsEpilogue (s : St α) : permB π (mplsEpilogue A s) = mplsEpilogue A (permB π s) := by
+theorem xB_mplsEpilogue (s : St α) : xB fb fw (mplsEpilogue A s) = mplsEpilogue A (xB fb fw s) := by
   unfold mplsEpilogue
   by_cases hf : decide ((s.hopeful.length : Int) ≤ s.seatsLeft) = true
-  · simp only [if_pos hf, if_pos (show decide (((permB π s).hopeful.length : Int) ≤ (permB π s).seatsLeft) = true from hf)]
-    have h6 : permB π (s.hopeful.foldl (fun acc c => acc.elect A c.cid "Elect remaining candidates" false) s)
-        = (permB π s).hopeful.foldl (fun acc c => acc.elect A c.cid "Elect remaining candidates" false) (permB π s) :=
-      permB_foldElect A hπ _ (fun _ => "Elect remaining candidates") (fun _ => false) s
+  · simp only [if_pos hf, if_pos (show decide (((xB fb fw s).hopeful.length : Int) ≤ (xB fb fw s).seatsLeft) = true from hf)]
+    have h6 : xB fb fw (s.hopeful.foldl (fun acc c => acc.elect A c.cid "Elect remaining candidates" false) s)
+        = (xB fb fw s).hopeful.foldl (fun acc c => acc.elect A c.cid "Elect remaining candidates" false) (xB fb fw s) :=
+      xB_foldElect A hx _ (fun _ => "Elect remaining candidates") (fun _ => false) s
     rw [← h6]
-    exact permB_foldDefeat A hπ _ (fun _ => "Defeat remaining candidates") _
-  · simp only [if_neg hf, if_neg (show ¬ decide (((permB π s).hopeful.length : Int) ≤ (permB π s).seatsLeft) = true from hf)]
-    exact permB_foldDefeat A hπ _ (fun _ => "Defeat remaining candidates") _
+    exact xB_foldDefeat A hx _ (fun _ => "Defeat remaining candidates") _
+  · simp only [if_neg hf, if_neg (show ¬ decide (((xB fb fw s).hopeful.length : Int) ≤ (xB fb fw s).seatsLeft) = true from hf)]
+    exact xB_foldDefeat A hx _ (fun _ => "Defeat remaining candidates") _
 
-theorem permB_mplsInit (s0 : St α) : permB π (mplsInit A s0) = mplsInit A (permB π s0) := by
+theorem xB_mplsInit (s0 : St α) : xB fb fw (mplsInit A s0) = mplsInit A (xB fb fw s0) := by
   unfold mplsInit
-  rw [permB_newRound A hπ]
-  have : permB π ((firstCount A (s0.setQuota (A.ofInt (pdiv s0.nballots (s0.seats + 1) + 1)))).setExhausted A.zero)
-      = (permB π (firstCount A (s0.setQuota (A.ofInt (pdiv s0.nballots (s0.seats + 1) + 1))))).setExhausted A.zero := rfl
-  rw [this, permB_firstCount A hA hπ]
+  rw [xB_newRound A hx]
+  have : xB fb fw ((firstCount A (s0.setQuota (A.ofInt (pdiv s0.nballots (s0.seats + 1) + 1)))).setExhausted A.zero)
+      = (xB fb fw (firstCount A (s0.setQuota (A.ofInt (pdiv s0.nballots (s0.seats + 1) + 1))))).setExhausted A.zero := rfl
+  rw [this, xB_firstCount A hA hx]
   rfl
 
 /-- **C10, Minneapolis rule** -/
-theorem mpls_permB (s0 : St α) : mplsCount A (permB π s0) = (mplsCount A s0).map (permB π) := by
+theorem mpls_xB (s0 : St α) : mplsCount A (xB fb fw s0) = (mplsCount A s0).map (xB fb fw) := by
   unfold mplsCount
-  have hlen : (permB π s0).cands.length = s0.cands.length := rfl
-  rw [hlen, ← permB_mplsInit A hA hπ, loopN_permB (fun _ => true) (mplsBody A) (fun _ => rfl) (permB_mplsBody A hA hπ)]
+  have hlen : (xB fb fw s0).cands.length = s0.cands.length := rfl
+  rw [hlen, ← xB_mplsInit A hA hx, loopN_xB (fun _ => true) (mplsBody A) (fun _ => rfl) (xB_mplsBody A hA hx)]
   cases loopN (fun _ => true) (mplsBody A) (2 * s0.cands.length + 4) (mplsInit A s0) with
   | none => rfl
-  | some s4 => simp only [Option.map_some]; rw [permB_mplsEpilogue A hπ]
+  | some s4 => simp only [Option.map_some]; rw [xB_mplsEpilogue A hx]
 
 end
+
+
+theorem scot_permB {α : Type} [CommRing α] [LinearOrder α] [IsStrictOrderedRing α] (A : Arith α) (hA : LawfulArith A)
+    {π : ∀ {β : Type}, List β → List β} (hπ : NatPerm π) (s0 : St α) :
+    scotCount A (permB π s0) = (scotCount A s0).map (permB π) := scot_xB A hA (XF_of_natPerm A hA hπ) s0
+
+theorem cfer_permB {α : Type} [CommRing α] [LinearOrder α] [IsStrictOrderedRing α] (A : Arith α) (hA : LawfulArith A)
+    {π : ∀ {β : Type}, List β → List β} (hπ : NatPerm π) (batch : Bool) (s0 : St α) :
+    cferCount A batch (permB π s0) = (cferCount A batch s0).map (permB π) := cfer_xB A hA (XF_of_natPerm A hA hπ) batch s0
+
+theorem mpls_permB {α : Type} [CommRing α] [LinearOrder α] [IsStrictOrderedRing α] (A : Arith α) (hA : LawfulArith A)
+    {π : ∀ {β : Type}, List β → List β} (hπ : NatPerm π) (s0 : St α) :
+    mplsCount A (permB π s0) = (mplsCount A s0).map (permB π) := mpls_xB A hA (XF_of_natPerm A hA hπ) s0
 
 end Droop
